@@ -480,3 +480,28 @@ def float_sites(F, reach, crates=None):
                     or (last == "parse" and any(g in ("f64", "f32") for g in (t.get("gargs") or []))):
                 out.append((f, t["line"], "call of %s" % c.split("::<")[0]))
     return out
+
+
+_WH = {}
+
+
+def with_helpers(F, path, depth=2, limit=300, exclude=()):
+    """the function's body (pre-transform coroutine body for async fns) with the plain functions / inherent methods of its own
+    crate inlined - what a rule about "function X does Y" should look at, so that splitting X into helpers changes nothing"""
+    from .facts import BrokenCheck
+    k = (id(F), path, depth, limit, tuple(exclude))
+    if k not in _WH:
+        base = F.body(path)
+        crate = base["crate"]
+
+        home = (F.fns.get(path) or base).get("parent", "")
+
+        def want(t, callee):
+            if callee["crate"] != crate or callee.get("impl_trait") or callee.get("trait_default") or callee["path"] in exclude:
+                return False
+            # `pub` functions of other modules are interfaces the rules talk about (from_json, lowering::lower ..), not helpers
+            if (callee.get("vis") or "") == "Public" and callee.get("parent", "") != home:
+                return False
+            return len(callee["blocks"]) <= limit
+        _WH[k] = (mir.inline_calls(F, base, want=want, depth=depth), want)
+    return _WH[k][0]
